@@ -22,6 +22,7 @@ type gor struct {
 	what  string
 	// set while the goroutine is inside verifYield / verifSettle
 	yielding bool
+	settling bool
 	yieldSeq int
 }
 
